@@ -266,6 +266,47 @@ def build_specs():
     return S
 
 
+class ViewSpec(Spec):
+    """Same element class as `base`, but every array it makes is a strided component view into a parent array
+    (V3iArray.y is an IntArray of stride 3, Box2iArray.min a V2iArray of stride 2): the representation every index /
+    slice / mask operation must handle both as the target and as the source of an assignment."""
+
+    def __init__(self, base, parent_name, attr, wrap):
+        self.name = "%s@%s.%s" % (base.name, parent_name, attr)
+        self.cls, self.mk, self.kind, self.numeric, self.comps = base.cls, base.mk, base.kind, base.numeric, base.comps
+        self.parent = getattr(imath, parent_name)
+        self.attr = attr
+        self.wrap = wrap
+
+    def array(self, ks):
+        p = self.parent(len(ks))
+        for i, k in enumerate(ks):
+            p[i] = self.wrap(self.mk(k), k)
+        return getattr(p, self.attr)
+
+
+def build_view_specs(specs=None):
+    I = imath
+    by = dict((s.name, s) for s in (specs or build_specs()))
+    V = []
+
+    def add(base, parent, attr, wrap):
+        if base in by and hasattr(I, parent):
+            V.append(ViewSpec(by[base], parent, attr, wrap))
+
+    add("IntArray", "V3iArray", "y", lambda v, k: I.V3i(1000 + k, v, -7 - k))
+    add("ShortArray", "V3sArray", "x", lambda v, k: I.V3s(v, 1000 + k, -7 - k))
+    add("FloatArray", "V3fArray", "z", lambda v, k: I.V3f(1000.5 + k, -7.5 - k, v))
+    add("DoubleArray", "V2dArray", "x", lambda v, k: I.V2d(v, -7.5 - k))
+    add("FloatArray", "QuatfArray", "r", lambda v, k: I.Quatf(v, 1000.5 + k, -7.5 - k, 3.5))
+    add("FloatArray", "C4fArray", "a", lambda v, k: I.Color4f(1000.5 + k, -7.5 - k, 3.5, v))
+    add("UnsignedCharArray", "C4cArray", "g", lambda v, k: I.Color4c((k * 3 + 5) % 251, v, (k * 5 + 9) % 251, 77))
+    add("V2iArray", "Box2iArray", "min", lambda v, k: I.Box2i(v, I.V2i(100000 + k, 100001 + k)))
+    add("V3fArray", "Box3fArray", "max", lambda v, k: I.Box3f(I.V3f(-100000.5 - k, -100001.5, -100002.5), v))
+    add("V3dArray", "Box3dArray", "min", lambda v, k: I.Box3d(v, I.V3d(100000.25 + k, 100001.25, 100002.25)))
+    return V
+
+
 def arr_list(a):
     """contents of any 1-D array object as a list of canonical values (reads through the public __getitem__)"""
     return [canon(a[i]) for i in range(len(a))]
